@@ -127,8 +127,10 @@ def plan(tier, seed, workdir):
     else:
         pairs = [(a, b) for a in range(4) for b in range(4)] + [(4, 0), (0, 4), (4, 1), (1, 4), (4, 2), (2, 4)]
         timeout = 2400
+    full_alpha = alpha
     for nl, nr in pairs:
         n = nl + nr
+        alpha = full_alpha if n <= 5 else full_alpha[:3]        # 4^6 combinations of one condition do not finish inside the budget
         for mode in ((0, 1, 2) if (nl and nr) else (0,)):
             body = CORE.format(alpha=alpha, nl=nl, nr=nr)
             pre = [f'len(ids) == {n}', f'all(0 <= x < {len(alpha)} for x in ids)']
@@ -142,10 +144,10 @@ def plan(tier, seed, workdir):
           family='shipped includes parse/validate/lint (native by-product, finite set)')
     p.rule = ('one CrossHair condition per (left length, right length, input mode arrays / LF text / CRLF text); symbolic line choices '
               'over the alphabet; non-trivial = twin refuted and decided')
-    p.bounds = [f'alphabet {alpha} (contains the empty line)', f'length pairs {pairs}', 'text modes only when both sides are non-empty '
+    p.bounds = [f'alphabet {full_alpha} (contains the empty line; 3 letters for 6-line pairs)', f'length pairs {pairs}', 'text modes only when both sides are non-empty '
                 '(an empty array has no text spelling)', 'maxStatements 20000']
     p.stubs = []
     p.outside = ['lists longer than the stated pairs; random 40-line inputs', 'lines containing CR/LF inside array elements']
     p.assumptions = ['CrossHair/z3', 'the interpreter itself (C01/C03/C08 check it)']
-    p.samples = [{'nl': 2, 'nr': 2, 'alphabet': alpha, 'modes': ['arrays', 'LF text', 'CRLF text']}]
+    p.samples = [{'nl': 2, 'nr': 2, 'alphabet': full_alpha, 'modes': ['arrays', 'LF text', 'CRLF text']}]
     return p
